@@ -40,7 +40,7 @@ def small_double():
 
 
 def small_string():
-    return st.one_of(values.small_text(), values.small_text(), st.sampled_from(["", "a", "ab", "abc", "b", "é", "\U0001f431a", "a.b", "A"]), values.text(5))
+    return st.one_of(values.small_text(), values.small_text(), st.sampled_from(["", "a", "ab", "abc", "b", "é", "\U0001f431a", "a.b", "A", "a  b", "a b", " a", "a\tb", "x   //  y", "a  b  c"]), values.text(5))
 
 
 def payload_of(kind: str):
